@@ -25,6 +25,14 @@ Wave 3 (control constants of the search itself):
     descending; also `sort_unstable_by_key(|f| f.value...)`, `Ord::cmp(&a.value, &b.value)`) and the fallback
     test (`results.is_empty()` / `results.len() == 0`), and that the option test is `== Off`.
 
+Second pass of wave 3:
+  * `fn push_component`: found pathnames are appended (`self.results.push(..)`; `insert(0, ..)` = prepended), and
+    `search_dir` reads the directory front to back (`while let Ok(Some(entry)) = dir.next()`) — the pre-sort order;
+  * yash-env/src/system/virtual.rs `fn opendir`: needs a free descriptor (`has_unused_fd` → EMFILE), hands
+    `OfdAccess::ReadOnly` and `OpenFlag::Directory` to `resolve_file`; `fn resolve_file`: ENOTDIR for a non-directory
+    under `OpenFlag::Directory`, and NO permission test (`opendirPermissionMask = 0`; a single
+    `permissions.contains(Mode::X | ..)` test would give its mask, anything else fails loudly).
+
 Accepted equivalent shapes (harmless refactorings): the Config as field assignments, as a struct literal
 with `..Config::default()` / `..Default::default()`, with any binding name; `!=` chains or
 `!matches!(name, "." | "..")` or `![".", ".."].contains(&name)` for the skipped names; `c"."` or
@@ -412,6 +420,53 @@ def _glob_fn(h, glob_src):
     return asc
 
 
+def _presort(h, glob_src):
+    pbody = _fn_body(h, glob_src, "push_component", GLOB)
+    if re.search(r"\.\s*results\s*\.\s*push\s*\(", pbody):
+        appended = True
+    elif re.search(r"\.\s*results\s*\.\s*insert\s*\(\s*0\s*,", pbody):
+        appended = False
+    else:
+        h.fail(f"{GLOB} push_component: neither `self.results.push(..)` nor `self.results.insert(0, ..)` found")
+    sbody = _fn_body(h, glob_src, "search_dir", GLOB)
+    if not re.search(r"while\s+let\s+Ok\(\s*Some\(\s*\w+\s*\)\s*\)\s*=\s*\w+\s*\.\s*next\s*\(\s*\)", sbody) and \
+       not re.search(r"while\s+let\s+Some\(\s*\w+\s*\)\s*=\s*\w+\s*\.\s*next\s*\(\s*\)\s*\.\s*(?:ok\(\)\s*\.\s*flatten\(\)|unwrap_or\(None\))", sbody):
+        h.fail(f"{GLOB} search_dir: the directory is not read with `while let Ok(Some(entry)) = dir.next()`")
+    return appended
+
+
+def _opendir(h, virt_src, modes_src):
+    body = _fn_body(h, virt_src, "opendir", VIRT)
+    needs_fd = bool(re.search(r"if\s+!\s*self\s*\.\s*current_process\s*\(\s*\)\s*\.\s*has_unused_fd\s*\(\s*\)\s*\{\s*return\s+Err\s*\(\s*Errno::EMFILE\s*\)", body))
+    m = re.search(r"\.\s*resolve_file\s*\(\s*\w+\s*,\s*OfdAccess::(\w+)\s*,\s*([^;]*?),\s*Mode::empty\s*\(\s*\)\s*,?\s*\)", body, re.S)
+    if not m:
+        h.fail(f"{VIRT} opendir: `self.resolve_file(path, OfdAccess::.., <flags>, Mode::empty())` not found")
+    if m.group(1) != "ReadOnly":
+        h.fail(f"{VIRT} opendir: access is OfdAccess::{m.group(1)}, not ReadOnly; the world model must be looked at")
+    flags = re.sub(r"\s", "", m.group(2))
+    if flags not in ("OpenFlag::Directory.into()", "EnumSet::only(OpenFlag::Directory)", "OpenFlag::Directory|OpenFlag::CloseOnExec",
+                     "OpenFlag::CloseOnExec|OpenFlag::Directory"):
+        h.fail(f"{VIRT} opendir: flags `{m.group(2).strip()}` are not just OpenFlag::Directory (+ CloseOnExec)")
+    rbody = _fn_body(h, virt_src, "resolve_file", VIRT)
+    needs_dir = bool(re.search(r"flags\s*\.\s*contains\s*\(\s*OpenFlag::Directory\s*\)\s*&&\s*!\s*is_directory\s*\{\s*return\s+Err\s*\(\s*Errno::ENOTDIR", rbody))
+    tests = re.findall(r"permissions\s*\.\s*(contains|intersects)\s*\(([^;{]*?)\)\s*[{&|)]", rbody + "\n" + body)
+    other = re.findall(r"\bpermissions\b(?!\s*=[^=])", re.sub(r"permissions\s*\.\s*(?:contains|intersects)\s*\([^;{]*?\)", "", rbody + "\n" + body))
+    if other:
+        h.fail(f"{VIRT} opendir/resolve_file: `permissions` is read in a way the translator cannot classify")
+    mask = 0
+    if len(tests) > 1:
+        h.fail(f"{VIRT} opendir/resolve_file: more than one permission test")
+    if tests:
+        names = re.findall(r"Mode::(\w+)", tests[0][1])
+        mm = re.search(r"bitflags!\s*\{\s*impl\s+Mode\s*:\s*\w+\s*\{(.*?)\n\s*\}\s*\n\s*\}", modes_src, re.S)
+        table = dict(re.findall(r"\bconst\s+(\w+)\s*=\s*([^;]+);", _strip_comments(mm.group(1)))) if mm else {}
+        if not names or any(n not in table for n in names):
+            h.fail(f"{VIRT} opendir/resolve_file: permission operand `{tests[0][1].strip()}` not understood")
+        for n in names:
+            mask |= _int(h, table[n], f"{MODES} Mode::{n}")
+    return needs_fd, needs_dir, mask
+
+
 def glob_tables(h):
     glob_src = _strip_comments(h.read(GLOB))
     # only the code before the unit tests
@@ -431,6 +486,8 @@ def glob_tables(h):
     flags = _arm_flags(h, glob_src)
     follow = _follow(h, glob_src)
     asc = _glob_fn(h, glob_src)
+    appended = _presort(h, glob_src)
+    od_fd, od_dir, od_mask = _opendir(h, virt_src, modes_src)
 
     def b(x):
         return "true" if x else "false"
@@ -472,7 +529,15 @@ def glob_tables(h):
         f"def existFollowsLinks : Bool := {b(follow)}\n\n"
         "/-- `glob`: the final sort is ascending in `a.value.cmp(&b.value)`; the fallback is taken for empty\n"
         "    results; the expansion is skipped when the `Glob` option is `Off` (both checked by the translator) -/\n"
-        f"def sortAscending : Bool := {b(asc)}\n"
+        f"def sortAscending : Bool := {b(asc)}\n\n"
+        "/-- `push_component` appends a found pathname to `results` (and `search_dir` reads a directory front to\n"
+        "    back): the order of the results before the final sort -/\n"
+        f"def resultsAppended : Bool := {b(appended)}\n\n"
+        "/-! `VirtualSystem::opendir` / `resolve_file` (yash-env/src/system/virtual.rs): EMFILE without a free\n"
+        "    descriptor, ENOTDIR for a non-directory, and the permission bits it asks of the directory (0 = none) -/\n"
+        f"def opendirNeedsFreeFd : Bool := {b(od_fd)}\n"
+        f"def opendirNeedsDirectory : Bool := {b(od_dir)}\n"
+        f"def opendirPermissionMask : Nat := {od_mask}\n"
     )
     h.write("GlobTables", body)
 
